@@ -139,4 +139,29 @@ theorem accepted_becomes_inflight (s : St) (keys : List Nat) (k : Nat)
   apply inflight_of_mem _ s.waiting.length _ k _ h
   simp [step]
 
+/-! ### histories that mix protocol versions
+    A version-0 offer does not consult the marks (the statement says "in version 1") but its accepted keys ARE being received
+    and are marked all the same, so that a version-1 offer arriving meanwhile declines them. `mem_waitingFor`,
+    `pending_key_declined` and `accepted_becomes_inflight` are about an arbitrary state `s`, hence hold in mixed histories;
+    only `Inv` (no key in two transfers) is specific to version-1-only histories. -/
+inductive EvM where
+  | offer (v : Nat) (keys : List Nat)
+  | finish (i : Nat)
+deriving Repr
+
+def stepM (s : St) : EvM → St × List Verdict
+  | .offer v keys =>
+    let r := handleOffer false v (env s) true 7 keys
+    ({ waiting := s.waiting ++ [r.waitingFor] }, r.verdicts)
+  | .finish i => ({ waiting := s.waiting.set i [] }, [])
+
+/-- a version-0 offer marks what it accepts: afterwards every accepted key is in flight -/
+theorem v0_accepted_is_marked (s : St) (keys : List Nat) (k : Nat)
+    (h : k ∈ (handleOffer false 0 (env s) true 7 keys).waitingFor) :
+    inflight (stepM s (.offer 0 keys)).1 k = true := by
+  apply inflight_of_mem _ s.waiting.length _ k _ h
+  simp [stepM]
+
+theorem stepM_v1 (s : St) (keys : List Nat) : stepM s (.offer 1 keys) = step s (.offer keys) := rfl
+
 end Ofl
